@@ -18,7 +18,7 @@ Places == {"header", "between-blocks", "after-expressions-header", "inside-expre
            "blank-inside-expressions", "indent", "crlf", "continuation", "trailing-spaces", "tabs", "no-final-newline",
            "unit-annotation", "two-comments"}
 \* index into the harness' table of comment strings (plain words, unit names, "1/0", "9**9**9", "x = 3", quotes, ...)
-NStrings == 30
+NStrings == 36
 NeedsString(p) == p \in {"header", "between-blocks", "after-expressions-header", "inside-expressions", "trailing", "end-of-file", "two-comments"}
 
 VARIABLES deco
